@@ -16,7 +16,7 @@ def warm():
     import sqlite3  # noqa: F401
 
 
-def run(prop, tier, level, rule, plan, required, n_override=None, extra_cases=None, assumptions=()):
+def run(prop, tier, level, rule, plan, required, n_override=None, extra_cases=None, assumptions=(), e1=None):
     """plan: list of (focus, n_quick, n_thorough, strategies|None, max_tasks)"""
     warm()
     rep = common.Report(prop, tier, level, rule)
@@ -35,6 +35,17 @@ def run(prop, tier, level, rule, plan, required, n_override=None, extra_cases=No
         cases += [(c, [prop]) for c in extra_cases(tier, seed)]
     results = common.parallel_map(sched.eval_case, cases, timeout=240)
     rep.merge_pool(results, cases)
+    if e1:
+        # the same property on the real kernel with real processes (gated probes + controller)
+        from .. import procmon
+        focus, nq, nt, max_tasks = e1
+        n1 = nq if tier == "quick" else nt
+        if n_override:
+            n1 = max(4, n_override // 10)
+        c1 = [(c, [prop]) for c in procmon.gen_cases(seed, n1, focus, max_tasks)]
+        r1 = common.parallel_map(procmon.eval_case, c1, timeout=300)
+        rep.merge_pool(r1, c1)
+        rep.assumptions.append("E1: real kernel and processes; task = probe blocked on a FIFO gate; the controller releases tasks only when Conductor's main thread is blocked in its self-pipe read and all started tasks have reached their gate")
     return rep, rep.finish(required_reach=required)
 
 
